@@ -10,7 +10,7 @@ import json
 from . import cases as casemod
 from . import replay, tlc
 
-MODULE_CONSTS = {"Trace_Obs": {"MCMode": "off", "OptNames": "{}", "MBLayouts": "{}", "MBRecs": "{}", "IOReqs": "{}", "IOShape": "{}", "NNames": "{}", "NDescs": "{}", "NCfgs": "{}", "RNodes": "{}", "RMode": "off", "XModules": "{}", "XMode": "off"}}
+MODULE_CONSTS = {"Trace_Obs": {"MCMode": "off", "OptNames": "{}", "MBLayouts": "{}", "MBRecs": "{}", "IOReqs": "{}", "IOShape": "{}", "NNames": "{}", "NDescs": "{}", "NCfgs": "{}", "RNodes": "{}", "RMode": "off", "XModules": "{}", "XMode": "off", "FRank": 3, "FDepth": 2, "FMutant": "none"}}
 ALL = replay.ALL_ACTS
 NO_INDEX = [a for a in ALL if a != "Index"]
 
@@ -120,6 +120,8 @@ CORPORA = {
     "d3-balance-declared": dict(acts=["RechunkSpec"], acts2=["Rechunk"], acts3=["BlockFirst"], maxlen=3, preset="lean1", sim=False, workers=4,
                                 keep=lambda b: (b["prog"][-1].get("mode") == "half" and b["prog"][1].get("balance") and b["prog"][2]["x"] == 2
                                                 and b["prog"][3]["x"] == 3)),
+    # one fusable node under two differently transposed paths (all 216 triples of 3-D permutations x 3 middles): C04, C02, C08
+    "d1-diamond": dict(acts=["Diamond"], maxlen=1, preset="cube", sim=False, emit_all=True, workers=4, final_only=True),
     # two different data-dependent selections of one source, then stacked / concatenated (C28: sizes unknown, shapes differ)
     "d3-unknown-pair": dict(acts=["MaskSelect"], acts2=["MaskSelect"], acts3=["StackMismatch", "Concat"], maxlen=3, preset="1d", sim=False,
                             workers=4),
